@@ -896,8 +896,7 @@ def check_pure(run: Run, prog: Program) -> None:
     for p in paths:
         if p.exit != "return" or p.calls(_is_calc_call):
             continue
-        no_bucket = any(isinstance(k, tuple) and k[0] == "truthy" and k[1].startswith("self._validate_component_ids(")
-                        and o is False for k, o, *_ in p.conds)
+        no_bucket = any(_refused(k, o) for k, o, *_ in p.conds)
         for form, key in bucket_forms.items():
             if p.outcome(key) is (key[0] == "is"):
                 no_bucket = True
@@ -1004,6 +1003,19 @@ def check_pure(run: Run, prog: Program) -> None:
                   instance=f"{ct.qual} :: stored before return on path {_pid(p)}")
     if not n_writes and len(run.violations) == v0:
         raise AnalysisError(f"{ct.qual}: no path stores the computed target")
+
+
+def _refused(key: Any, outcome: bool) -> bool:
+    """The path condition says that `self._validate_component_ids(...)` returned a falsy value."""
+    if not isinstance(key, tuple) or len(key) < 2:
+        return False
+    is_val = lambda t: isinstance(t, str) and t.startswith("self._validate_component_ids(")  # noqa: E731
+    if key[0] == "truthy" and is_val(key[1]):
+        return outcome is False
+    if key[0] in ("is", "==") and isinstance(key[1], frozenset) and len(key[1]) == 2 and any(is_val(t) for t in key[1]):
+        other = next(t for t in key[1] if not is_val(t))
+        return (other == "False" and outcome is True) or (other == "True" and outcome is False)
+    return False
 
 
 def _check_validate(run: Run, prog: Program, ct: FuncInfo) -> None:
@@ -1285,7 +1297,6 @@ def check_age(run: Run, prog: Program) -> None:
     run.check(ok, "C03.AGE", ag.qual, f"self._max_proposal_age_sec = {want}",
               "the configured maximum age is not what the expiry test compares against",
               node=ag.node, file=ag.file)
-    check_age_actor(run, prog)
 
 
 def _prep_suite(stmts: list[ast.stmt]) -> list[ast.stmt]:
@@ -1426,9 +1437,9 @@ CONTROLS = [
     ("validation refuses a group that has system bounds", MAT,
      "                system_bounds.inclusion_bounds is None\n                and system_bounds.exclusion_bounds is None",
      "                system_bounds.inclusion_bounds is None\n                or system_bounds.exclusion_bounds is None", "C03.PURE"),
-    ("timer ticks swallowed by the proposals arm", ACTOR.split(":")[0],
-     "            if selected_from(selected, self._proposals_receiver):",
-     "            if not selected_from(selected, self._proposals_receiver):", "C03.AGE"),
+    ("expiry arm not taken on timer ticks", ACTOR.split(":")[0],
+     "            elif selected_from(selected, drop_old_proposals_timer):",
+     "            elif not selected_from(selected, drop_old_proposals_timer):", "C03.AGE"),
     ("received proposal dropped by the actor", ACTOR.split(":")[0],
      "                await self._send_updated_target_power(\n                    proposal.component_ids, proposal, must_send=True\n                )\n",
      "                pass\n", "C03.REPL"),
@@ -1555,8 +1566,14 @@ def structural_controls(prog: Program) -> list[tuple[str, str, str, str, str]]: 
     tests = [n.test for n in body_walk(rn.node) if isinstance(n, ast.If) and isinstance(n.test, ast.Call)
              and u(n.test.func).split(".")[-1] == "selected_from" and len(n.test.args) == 2
              and u(n.test.args[1]) == "self._proposals_receiver"]
+    ttests = [n.test for n in body_walk(rn.node) if isinstance(n, ast.If) and isinstance(n.test, ast.Call)
+              and u(n.test.func).split(".")[-1] == "selected_from" and len(n.test.args) == 2
+              and any(isinstance(a, (ast.Assign, ast.AnnAssign)) and isinstance(a.value, ast.Call) and "Timer" in u(a.value.func)
+                      and u(a.targets[0] if isinstance(a, ast.Assign) else a.target) == u(n.test.args[1])
+                      for a in body_walk(rn.node))]
+    if len(ttests) == 1:
+        add(CONTROLS[11][0], amod, [(ttests[0], f"not {seg(asrc, ttests[0])}")])
     if len(tests) == 1:
-        add(CONTROLS[11][0], amod, [(tests[0], f"not {seg(asrc, tests[0])}")])
         arm = next(n for n in body_walk(rn.node) if isinstance(n, ast.If) and n.test is tests[0])
         sends = [x for b in arm.body for x in ast.walk(b) if isinstance(x, ast.Expr) and isinstance(x.value, ast.Await)
                  and isinstance(x.value.value, ast.Call) and isinstance(x.value.value.func, ast.Attribute)
@@ -1596,14 +1613,25 @@ def other_rules(run: Run, prog: Program) -> None:
     check_ord(run, prog)
     check_repl(run, prog)
     check_age(run, prog)
+    check_age_actor(run, prog)
 
 
 def run_rules(run: Run, prog: Program, tier: str = "quick") -> None:
     env_rules(run, prog, tier)
-    check_pure(run, prog)
-    check_ord(run, prog)
-    check_repl(run, prog)
-    check_age(run, prog)
+    other_rules(run, prog)
+
+
+def _rules_for(expect: str) -> Any:
+    """The rule group a control is expected to trip (controls re-index the whole program each time)."""
+    if expect == "C03.ENV":
+        return env_rules
+    groups = {"C03.PURE": (check_pure,), "C03.ORD": (check_ord,), "C03.REPL": (check_repl, check_age_actor),
+              "C03.AGE": (check_age, check_age_actor)}
+
+    def rules(run: Run, prog: Program, *_a: Any) -> None:
+        for f in groups.get(expect, (other_rules,)):
+            f(run, prog)
+    return rules
 
 
 def check(run: Run, prog: Program, tier: str) -> str:
@@ -1626,7 +1654,7 @@ def check(run: Run, prog: Program, tier: str) -> str:
     from ..engine.controls import run_controls
 
     run_controls(run, structural_controls(prog), run_rules, tier, base_prog=prog,
-                 select=lambda expect: env_rules if expect == "C03.ENV" else other_rules)
+                 select=_rules_for)
     run.assume("system bounds satisfy lower <= 0 <= upper and the exclusion zone contains 0 "
                "(the property's quantifier)")
     run.assume("expiry is decided on a small-scope model of the buckets (3 groups with 3, 2 and 0 "
